@@ -103,6 +103,20 @@ class Sched:
             n += 1
         return False
 
+    def run_to(self, tid, label, limit=2000):
+        """advance tid until it is parked in front of the line carrying `label` (which is not executed); False when the
+        thread finished or blocked before reaching it"""
+        n = 0
+        while n < limit:
+            at = self.parked_at(tid)
+            if at is None:
+                return False
+            if at == label:
+                return True
+            self.step(tid)
+            n += 1
+        return False
+
     def finish(self, tid, timeout=20):
         with self.cv:
             self.free.add(tid)
@@ -127,9 +141,13 @@ PATTERNS = [
     ("Eval", r"evaluate_forward_ref\("),
     ("Annot", r"ref\.__forward_value__ = self\.rule_cls"),
     ("Pop", r"self\.forward_refs\.pop\("),
+    ("Mark", r"resolved_names\.append\("),
+    ("PopLoop", r"for name in resolved_names"),
     ("UpdField", r"field\.resolve_forward_refs\(\)"),
     ("UpdAdd", r"self\.addition_type, r ="),
     ("ClearLocal", r"ref\.__forward_evaluated__ = False"),
+    # TypeTransformer.__call__: a field type that is still a reference is dereferenced here
+    ("Convert", r"if not t\.__forward_evaluated__"),
     # TypeRegistry
     ("Snap", r"cache = self\._cache"),
     ("CacheChk", r"if self\.cache and t in "),
